@@ -20,6 +20,8 @@ def dump(x):
             out.append('1' if y else '0')
         elif isinstance(y, int):
             out.append(str(y))
+        elif isinstance(y, (str, bytes, float)) or y is None:
+            out.append(repr(y))        # only in reports: such values never go to the model
         else:
             out.append('(')
             first.append(True)
